@@ -13,7 +13,7 @@ ASSUMPTIONS = ['for exact arg-max ties (class exact_ties: quantised outputs) onl
                'blank is the last class; 3-D tensors only (the 2-D branch of the engine decoder is not reachable from the repository)']
 N = {'quick': 5000, 'thorough': 300000}
 CLASSES = ['random', 'lead_trail_blank', 'all_blank', 'repeats_split', 'first_nonblank', 'last_class', 'identical_rows', 'different_rows', 'single_frame', 'engine', 'exact_ties', 'large_alphabet', 'near_ties', 'engine_near_ties', 'long_lines', 'huge_scores']
-REQUIRED = ['tensors_with_scores_in_the_thousands', 'lines_over_4096_frames', 'separator_reassigned_on_a_live_decoder', 'near_tie_engine_lines', 'alphabets_over_256_classes', 'near_tie_lines', 'earlier_run_ocr_results_rechecked', 'separator_lines', 'run_ocr_logits_compared', 'tie_lines', 'engine_lines', 'standalone_lines', 'filtration_lines', 'run_ocr_lines']
+REQUIRED = ['filtration_lines_with_a_string_or_array_table', 'tensors_with_scores_in_the_thousands', 'lines_over_4096_frames', 'separator_reassigned_on_a_live_decoder', 'near_tie_engine_lines', 'alphabets_over_256_classes', 'near_tie_lines', 'earlier_run_ocr_results_rechecked', 'separator_lines', 'run_ocr_logits_compared', 'tie_lines', 'engine_lines', 'standalone_lines', 'filtration_lines', 'run_ocr_lines']
 
 
 def setup(ctx):
@@ -135,12 +135,30 @@ def gen(rng, i, ctx):
         # runs, so that repeats actually occur
         rep = int(rng.integers(1, 4))
         am = np.repeat(am[:, :max(1, (T + rep - 1) // rep)], rep, axis=1)[:, :T]
-    sc = rng.normal(size=(N_, C, T)).astype(np.float32) * float(rng.choice([0.1, 1.0, 5.0]) if cls != 'huge_scores' else rng.choice([400.0, 3000.0]))
+    scale = float(rng.choice([0.1, 1.0, 5.0]) if cls != 'huge_scores' else rng.choice([400.0, 3000.0]))
+    if cls == 'huge_scores' and (i // len(CLASSES)) % 3 == 2:
+        scale = float(rng.choice([3e7, 2e9, 1e12]))                  # beyond 2^24: adding 1 to such a single-precision score changes nothing
+    sc = rng.normal(size=(N_, C, T)).astype(np.float32) * scale
     if cls == 'huge_scores':
         sc += float(rng.choice([0.0, 1500.0, -1500.0]))            # raw scores in the thousands (an exported net without its final normalisation)
         am[:, 0] = rng.integers(0, max(1, C - 1), size=N_)           # and a line that starts with a character in its very first frame
-    top = sc.max(axis=1) + 0.01 + rng.random((N_, T)).astype(np.float32)
+    mx = sc.max(axis=1)
+    top = np.where(np.abs(mx) < 1e6, mx + 0.01 + rng.random((N_, T)).astype(np.float32), mx + (1 + rng.random((N_, T)).astype(np.float32)) * np.abs(mx) * np.float32(1e-6)).astype(np.float32)
     np.put_along_axis(sc, am[:, None, :], top[:, None, :], axis=1)
+    for _ in range(4):
+        # (single precision at large magnitudes: make sure the chosen symbol really is the strict maximum of its frame)
+        cur = np.take_along_axis(sc, am[:, None, :], axis=1)[:, 0, :]
+        rest = sc.copy()
+        np.put_along_axis(rest, am[:, None, :], -np.inf, axis=1)
+        bad = cur <= rest.max(axis=1) if C > 1 else np.zeros_like(cur, dtype=bool)
+        if not bad.any():
+            break
+        fixed = np.where(bad, np.nextafter(np.nextafter(rest.max(axis=1), np.float32(np.inf)), np.float32(np.inf)), cur).astype(np.float32)
+        np.put_along_axis(sc, am[:, None, :], fixed[:, None, :], axis=1)
+    if scale >= 1e6:
+        # the largest score of the whole batch sits in the first frame of a line, on a character
+        n0 = int(rng.integers(0, N_))
+        sc[n0, am[n0, 0], 0] = sc.max() * np.float32(1.001) if sc.max() > 0 else np.float32(scale)
     return {'cls': cls, 'am': am, 'scores': sc, 'C': C}
 
 
@@ -183,6 +201,13 @@ def check_tensor(sc, chars_with_blank_engine, chars, mon, ctx, expected_paths=No
         mon.count('filtration_lines')
         if f != exp[n]:
             mon.violation('filtration-greedy', {'site': site, 'line': n, 'got': f, 'expected': exp[n], 'path': am[n]})
+        if all(len(ch) == 1 for ch in chars) and n < 2:
+            # the character table handed over as a plain string / as a numpy array (indexing creates a new object every time)
+            for table in (''.join(chars) + '​', np.array(chars + ['​'])):
+                f2, _ = ctx.cc.greedy_filtration(np.exp(lp), table)
+                mon.count('filtration_lines_with_a_string_or_array_table')
+                if f2 != exp[n]:
+                    mon.violation('filtration-greedy', {'site': site, 'table': type(table).__name__, 'line': n, 'got': f2, 'expected': exp[n], 'path': am[n]})
         if exp[n] and len(exp[n]) < sum(1 for a in am[n] if a != C - 1) or (exp[n] and (am[n] == C - 1).any()):
             nontriv = True
     return nontriv, am
@@ -244,7 +269,7 @@ def check(case, mon, ctx):
     C = case['C']
     if case['scores'].shape[2] > 4096 if 'scores' in case else False:
         mon.count('lines_over_4096_frames')
-    chars = [chr(0x61 + k) for k in range(C - 1)] if C <= 41 else [chr(0x3400 + k + (0x800 if 0x3400 + k >= 0xD800 else 0)) for k in range(C - 1)]
+    chars = [chr((0x61 if C % 3 else 0x3b1) + k) for k in range(C - 1)] if C <= 41 else [chr(0x3400 + k + (0x800 if 0x3400 + k >= 0xD800 else 0)) for k in range(C - 1)]
     if C > 256:
         mon.count('alphabets_over_256_classes')
     if case['cls'] == 'huge_scores':
